@@ -29,10 +29,10 @@ static var src_iter_init(var self) { return M == 0 ? Terminal : (var)&W[0].v; }
 static var src_iter_next(var self, var curr) { size_t i = ((char*)curr - (char*)&W[0].v) / sizeof(W[0]); return i + 1 < M ? (var)&W[i + 1].v : Terminal; }
 static struct Iter cv_src_iter = { src_iter_init, src_iter_next, NULL, NULL, NULL };
 static struct Iter cv_tuple_iter = { Tuple_Iter_Init, Tuple_Iter_Next, Tuple_Iter_Last, Tuple_Iter_Prev, NULL };
-size_t len(var self) { __CPROVER_assert(self == src, "harness: len of the operand iterable"); return M; }
-var get(var self, var key) { __CPROVER_assert(self == src, "harness: get of the operand iterable"); int64_t i = c_int(key); __CPROVER_assert(i >= 0 && i < M, "[C04] the operand of concat / assign is read only inside its length"); return &W[i].v; }
-var instance(var self, var cls) { __CPROVER_assert((self == src || self == (var)t) && cls == Iter, "harness: instance(.., Iter)"); return self == src ? &cv_src_iter : &cv_tuple_iter; }
-var method_at_offset(var self, var cls, size_t offset, const char* m) { __CPROVER_assert(self == src && cls == Iter, "harness: method(operand, Iter, ..)"); return &cv_src_iter; }
+size_t len(var self) { CV_LIMIT(self == src, "harness: len of the operand iterable"); return M; }
+var get(var self, var key) { CV_LIMIT(self == src, "harness: get of the operand iterable"); int64_t i = c_int(key); __CPROVER_assert(i >= 0 && i < M, "[C04] the operand of concat / assign is read only inside its length"); return &W[i].v; }
+var instance(var self, var cls) { CV_LIMIT((self == src || self == (var)t) && cls == Iter, "harness: instance(.., Iter)"); return self == src ? &cv_src_iter : &cv_tuple_iter; }
+var method_at_offset(var self, var cls, size_t offset, const char* m) { CV_LIMIT(self == src && cls == Iter, "harness: method(operand, Iter, ..)"); return &cv_src_iter; }
 bool implements_method_at_offset(var self, var cls, size_t offset) { return self == src; }
 
 static int expect_throw; static var expect_exc; static var* old_items;
